@@ -28,6 +28,8 @@ FIELD = b'h2=":8443"; ma=60'
 
 
 class Spec(L.Spec):
+    go_on_after_refusal = True       # a call refused for its arguments changes nothing: the window for ALTSVC stays as it was
+
     def __init__(self, key):
         role, tier = key[1], key[2]
         self.reqform = key[3] if len(key) > 3 else "bytes"     # how the client application writes its request header list
@@ -53,6 +55,9 @@ class Spec(L.Spec):
                 continue
             keep.append(lab)
         self.menu = keep + self.alt
+        if not client:
+            # a response the library refuses for its header list (:status after a regular field): no response headers were sent
+            self.menu.append("l:badresp:%d" % f)
 
     def execute(self, st, lab):
         parts = lab.split(":")
@@ -84,6 +89,14 @@ class Spec(L.Spec):
                     "promised_status": m.status(promised)}
             preq = [(n, (b"pushed.example" if n == b":authority" else v)) for n, v in H.REQ]
             return st.h.rx([wire.push_promise(parent, promised, L.sb(preq))], ("push", parent, promised)), info
+        if len(parts) >= 2 and parts[1] == "badresp":
+            sid = int(parts[2])
+            m = st.h.m
+            s = m.get(sid)
+            info = {"dir": "l", "kind": "badresp", "es": False, "sid": sid, "status": m.status(sid),
+                    "state": s.state if s is not None else "idle", "closed_by": s.closed_by if s is not None else None,
+                    "sent": s.sent if s is not None else "none", "recv": s.recv if s is not None else "none"}
+            return st.h.api("send_headers", sid, H.ni([(b"x-a", b"1"), (b":status", b"200")])), info
         if len(parts) < 2 or parts[1] != "altsvc":
             return super().execute(st, lab)
         h = st.h
@@ -114,6 +127,10 @@ class Spec(L.Spec):
         return o, info
 
     def judge(self, st, lab, info, o, bad):
+        if info["kind"] == "badresp":
+            if o.kind == "ok" or o.raw:
+                bad("invalid-response-accepted", "%s -> %s" % (lab, o.brief()))
+            return "badresp-" + o.kind
         if info["kind"] != "altsvc":
             return "drive-" + o.kind
         client = self.client
